@@ -8,14 +8,20 @@ from ..engine import monitors, suite
 from ..runner import Divergence, Driver, Env, Outcome, diff_streams
 
 THEOREMS = ["C08_owner_is_handler", "C08_never_handler_of_handler", "C08_scoped_owner", "C08_wildcard_otherwise",
-            "C08_route", "C08_fail", "C08_lineage_budget", "C08_count_raised_by_one", "C08_other_counts_kept", "C08_init"]
+            "C08_route", "C08_fail", "C08_lineage_budget", "C08_count_raised_by_one", "C08_other_counts_kept", "C08_init",
+            "C08_init_resumed", "C08_lineage_budget_waiters", "C08_wait_suspend_records_attempt", "C08_wait_replay_keeps_budget",
+            "C08_wait_replay_lands", "C08_wait_replay_keeps_budget_resolve", "C08_wait_replay_keeps_budget_timeout",
+            "C08_wait_replay_keeps_budget_rehydrate", "C08_wait_record_survives_serialisation",
+            "C08_wait_replay_budget_spent_fails", "C08_unrepaired_wait_replay_resets_budget", "C08_unrepaired_variant_is_the_model"]
 LEAN_TARGETS = ["WfProps.C08"]
 EXPLANATION = (
     "Lean: (1) handler table model: scoped owner first, else wildcard, never for a handler step, owner is a declared "
     "handler; (2) reducer: exhausted failure with owner and budget left => exactly one StepFailedEvent to the owner "
     "with count+1 (other counts kept), state unchanged; no owner or budget spent => WorkflowFailedEvent + failure with "
-    "the original exception; (3) runner LTS invariant for every schedule: no attempt, tick or timer ever carries a "
-    "recovery count above a handler's max_recoveries. Tie: table model vs real _collect_catch_error_handlers on random "
+    "the original exception; (3) runner LTS invariant for every schedule, fresh and resumed runs: no attempt, waiter, tick "
+    "or timer ever carries a recovery count above a handler's max_recoveries; (4) a suspension in wait_for_event keeps "
+    "the lineage's counts: the waiter stores the suspended invocation's attempt record and resolution, timeout and "
+    "rehydration replay exactly that record (the unrepaired fresh replay reset the budget: refuted variant with witness). Tie: table model vs real _collect_catch_error_handlers on random "
     "handler layouts (incl. invalid ones), reducer/runner correspondence. Search: every exhausted failure on real runs "
     "is checked against the routing rule recomputed from the static spec; handler entries; counts in every state. The "
     "'same with validation disabled' clause is refuted on the tree (known finding, witness replayed)."
@@ -101,4 +107,6 @@ def run(env: Env) -> Outcome:
     suite.direct_corr(env, out, env.budget(2500, 50000))
     suite.live_runs(env, out, env.budget(150, 3000), [monitors.mon_c08], extra_specs=suite.load_corpus("C08"))
     suite.live_runs(env, out, env.budget(350, 7000), [monitors.mon_c08], gen_kwargs={"family": "retry"})
+    # lineages that pass through a step suspended in wait_for_event between two entries of their handler
+    suite.live_runs(env, out, env.budget(120, 2400), [monitors.mon_c08], gen_kwargs={"family": "wait_retry"})
     return out
